@@ -117,6 +117,18 @@ def _leaf_tab(el, cell, X, nder):
                     idx = basix.index(*[(1 if k == a else 0) + (1 if k == b else 0) for k in range(cell.tdim)])
                     H[:, :, a, b] = t[idx, 0]
             d2 = np.einsum("dcab,aj,bl->dcjl", H, K, K)
+            if nder >= 3:
+                # third derivatives ride on an extra last axis of d2: [..., 0] = second derivative, [..., 1 + k] = its
+                # derivative in physical direction k (affine cells: three applications of K)
+                td = cell.tdim
+                H3 = np.zeros((ndofs, vs, td, td, td))
+                for a in range(td):
+                    for b in range(td):
+                        for c in range(td):
+                            idx = basix.index(*[(1 if k == a else 0) + (1 if k == b else 0) + (1 if k == c else 0) for k in range(td)])
+                            H3[:, :, a, b, c] = t[idx, 0]
+                d3 = np.einsum("dcabe,aj,bl,em->dcjlm", H3, K, K, K)
+                d2 = np.concatenate([d2[..., None], d3], axis=-1)
         return vals, d1, d2
     if not cell.affine or cell.gdim != cell.tdim:
         raise Unsupported("Piola-mapped element on non-affine / manifold geometry")
@@ -158,6 +170,8 @@ def tabulate_physical(el, cell, X, nder):
     cls = type(el).__name__
     if cls == "_BasixElement":
         return _leaf_tab(el, cell, X, nder)
+    if nder >= 3:
+        raise Unsupported("third derivatives of composite elements")
     if cls == "_BlockedElement":
         sv, s1, s2 = tabulate_physical(el._sub_element, cell, X, nder)
         if sv.shape[1] != 1:
@@ -244,12 +258,18 @@ class Field:
             if self.d1 is None:
                 raise Unsupported("derivative not tabulated")
             a = self.d1[..., derivatives[0]]
-        elif len(derivatives) == 2:
+        elif len(derivatives) in (2, 3):
             if self.d2 is None:
                 raise NeedSecond()
-            a = self.d2[..., derivatives[0], derivatives[1]]
+            ext = self.d1 is not None and np.ndim(self.d2) == np.ndim(self.d1) + 2
+            if len(derivatives) == 2:
+                a = self.d2[..., derivatives[0], derivatives[1], 0] if ext else self.d2[..., derivatives[0], derivatives[1]]
+            elif ext:
+                a = self.d2[..., derivatives[0], derivatives[1], 1 + derivatives[2]]
+            else:
+                raise NeedSecond()
         else:
-            raise Unsupported("third derivatives")
+            raise Unsupported("derivatives of order four")
         a = np.asarray(a)
         return a.reshape(self.shape) if self.shape else a.reshape(-1)[0]
 
@@ -496,7 +516,7 @@ def reference_tensor(form, itype, sid, cells, wvals, cvals, entity, scalar=float
 
 
 def _point_tensor(expr, ph, args, dims, nside, cells, Xs, geo, wvals, cvals, itype):
-    for nder in (1, 2):
+    for nder in (1, 2, 3):
         try:
             return _point_tensor_n(expr, ph, args, dims, nside, cells, Xs, geo, wvals, cvals, itype, nder)
         except NeedSecond:
@@ -635,7 +655,7 @@ def reference_expression(expr, points, cell, wvals, cvals, entity=None):
             X = o + ax @ points[p]
         geo = [geometric_values(cell, X, entity, "exterior_facet" if entity is not None else "cell")]
         for ci, comp in enumerate(comps):
-            for nder in (1, 2):
+            for nder in (1, 2, 3):
                 try:
                     vals = _expr_point(expr, ph, args, dims, cell, X, geo, wvals, cvals, comp, nder)
                     break
